@@ -95,6 +95,12 @@ def whole_query_cases(backend):
         ("wrong-label-count-with-repeat-3-for-1", f"ResultTTree(ds.Select(lambda e: ({c}.Count(),)), ['x', 'x', 'x'], 'tree', 'file.root')"),
         ("wrong-label-count-with-repeat-per-object", f"ResultTTree(ds.SelectMany(lambda e: {c}).Select(lambda j: (j.pt(), j.eta())), ['pt', 'eta', 'pt'], 'tree', 'file.root')"),
         ("not-a-call", "ds"),
+        ("aggregate-result-selector", f"ds.Select(lambda e: {c}.Select(lambda j: j.pt()).Aggregate(0.0, lambda acc, v: acc + v, lambda acc: acc * 1234.5))"),
+        ("aggregate-result-selector-in-where", f"ds.Where(lambda e: {c}.Select(lambda j: j.pt()).Aggregate(0.0, lambda acc, v: acc + v, lambda acc: acc * 1234.5) > 1).Select(lambda e: {c}.Count())"),
+        ("aggregate-four-arguments", f"ds.Select(lambda e: {c}.Select(lambda j: j.pt()).Aggregate(0, lambda acc, v: acc + v, lambda acc: acc, 1))"),
+        ("aggregate-no-arguments", f"ds.Select(lambda e: {c}.Select(lambda j: j.pt()).Aggregate())"),
+        ("count-with-argument", f"ds.Select(lambda e: {c}.Count(lambda j: j.pt() > 1))"),
+        ("sum-with-argument", f"ds.Select(lambda e: {c}.Sum(lambda j: j.pt()))"),
     ]
     # an Aggregate whose initial value is not a number the backend can accumulate into (a pointer, declared through metadata)
     for tname in ("float*", "double*", "int**", "int*"):
